@@ -921,9 +921,11 @@ func recordQualifiedReferences(node *lisp.LVal, refs map[string]bool) {
 			refs[pkg+"/"+name] = true
 		}
 	case lisp.LSExpr:
-		if node.IsQuoted() {
-			return
-		}
+		// Descend into quoted lists as well.  A bracket list reads as a quoted
+		// list and is the conventional way to write let/flet/labels bindings,
+		// so `(let ([w (pkg:helper v)]) ...)` holds a reference the evaluator
+		// will follow.  A qualified symbol in genuinely quoted data only makes
+		// the definition it names keep its name, which is always safe.
 		for _, child := range node.Cells {
 			recordQualifiedReferences(child, refs)
 		}
@@ -931,10 +933,9 @@ func recordQualifiedReferences(node *lisp.LVal, refs map[string]bool) {
 		lisp.LFun, lisp.LQuote, lisp.LString, lisp.LBytes, lisp.LSortMap,
 		lisp.LArray, lisp.LNative, lisp.LTaggedVal, lisp.LMarkTerminal,
 		lisp.LMarkTailRec, lisp.LMarkMacExpand, lisp.LTypeMax:
-		// Nothing to record.  Literals carry no package qualification, and
-		// LQuote is skipped for the same reason the quoted-LSExpr branch
-		// above bails out: a quoted form is data, not a reference.  The rest
-		// are runtime-only values that never appear in a parsed file.
+		// Nothing to record.  Literals carry no package qualification and
+		// the rest are runtime-only values that never appear in a parsed
+		// file.
 	}
 }
 
